@@ -310,7 +310,9 @@ fn instances(tier: Tier) -> Vec<(InstRep, Vec<Vec<(u64, f64)>>)> {
                         };
                         // when a variable is pre-fixed, the last pool state carries a DIFFERENT value for it:
                         // the single-state path lets the fixed value win, and so must SampleSet::get
-                        let mut last = vec![(1, -2.0), (2, 2.0)];
+                        // ... and its value for variable 2 (bound [-2, 3]) lies 5e-8 beyond the bound: inside the
+                        // 1e-7 tolerance with which the single-state path accepts values
+                        let mut last = vec![(1, -2.0), (2, 3.0 + 5e-8)];
                         if prefixed {
                             last.push((8, 7.0));
                         }
